@@ -7,9 +7,11 @@ defines the imperative logic to convert a HERA program into machine code.
 Author:  Ian Fisher (iafisher@fastmail.com)
 Version: March 2019
 """
+import sys
 import textwrap
 
 from .data import Program, Settings
+from .utils import print_error
 
 
 def assemble(program: Program) -> "Tuple[List[bytes], List[bytes]]":
@@ -74,12 +76,16 @@ def assemble_and_print(program: Program, settings: Settings) -> None:
         else:
             path = settings.path
 
-        with open(path + ".lcode", "w", encoding="ascii") as f:
-            f.write(code)
-            f.write("\n")
+        try:
+            with open(path + ".lcode", "w", encoding="ascii") as f:
+                f.write(code)
+                f.write("\n")
 
-        with open(path + ".ldata", "w", encoding="ascii") as f:
-            f.write(data)
+            with open(path + ".ldata", "w", encoding="ascii") as f:
+                f.write(data)
+        except OSError as e:
+            print_error(settings, "could not write assembled output: {}".format(e))
+            sys.exit(3)
 
 
 def bytes_to_hex(b: bytes) -> str:
